@@ -110,7 +110,7 @@ impl PendingEvents {
             self.available_events.extend(unblocked_events);
         }
         if let McEvent::MessageReceived { msg, src, dst, .. } = result.clone() {
-            if let Some(unblocked_event) = self.resolver.remove_message(msg, src, dst) {
+            if let Some(unblocked_event) = self.resolver.remove_message_by_id(msg, src, dst, event_id) {
                 self.available_events.insert(unblocked_event);
             }
         }
